@@ -1,9 +1,18 @@
 #!/bin/bash
-# replay one h_solve script against the library built from /repo's working tree
+# replay one harness script against the library built from /repo's working tree.
+# The harness is chosen from the replay directory (out/replay/<id>/...): store properties use h_store,
+# file properties h_io, factorization properties h_fac, everything else h_solve.  QSX_ASAN=1: sanitizer build.
 cd "$(dirname "$0")/.."
 B=$(tools/build_repo.sh) || exit 2
+case "$1" in
+  *replay/C05/*|*replay/C06/*|*replay/C07/*|*replay/C16/*|*corpus/C05/*|*corpus/C06/*) H=h_store ;;
+  *replay/C08/*|*replay/C09/*|*replay/C10/*|*replay/C11/*|*replay/C14/*|*replay/C19/*|*corpus/C11/*) H=h_io ;;
+  *replay/C12/*|*replay/C13/*|*corpus/C12/*) H=h_fac ;;
+  *) H=h_solve ;;
+esac
+[ -n "$QSX_HARNESS" ] && H=$QSX_HARNESS
 D=$(mktemp -d /var/tmp/qsx_replay.XXXXXX)
-grep -v '^#' "$1" | QSX_SCRATCH=$D "$B/h_solve${QSX_ASAN:+_asan}"
+grep -v '^#' "$1" | QSX_SCRATCH=$D "$B/$H${QSX_ASAN:+_asan}"
 rc=$?
 rm -rf "$D"
 exit $rc
